@@ -7,6 +7,7 @@ import (
 	"fmt"
 	"regexp"
 	"sort"
+	"strconv"
 	"strings"
 
 	yaml "go.yaml.in/yaml/v4"
@@ -24,6 +25,8 @@ type Route struct {
 	// QueryRequired: the query parameters the artefact marks required (go-http table, OpenAPI
 	// document); the clients and the TS server carry no such flag.
 	QueryRequired []string `json:"query_required"`
+	// SegIndex (TS server only): the index into `url.pathname.split("/")` each path variable is read from.
+	SegIndex map[string]int `json:"seg_index,omitempty"`
 }
 
 func (r Route) Canon() Route {
@@ -247,6 +250,7 @@ func TSClient(f *ir.File, res *plug.Result) (Table, error) {
 var (
 	reTSRoute    = regexp.MustCompile(`(?m)^    \{\n      method: "([A-Z]*)",\n      path: "([^"]*)",`)
 	reTSSrvParam = regexp.MustCompile(`pathParams\["([^"]*)"\] = `)
+	reTSSrvSeg   = regexp.MustCompile(`pathParams\["([^"]*)"\] = decodeURIComponent\(pathSegments\[(\d+)\]`)
 	reTSSrvQuery = regexp.MustCompile(`params\.(?:get|getAll)\("([^"]*)"\)`)
 )
 
@@ -277,6 +281,13 @@ func TSServer(f *ir.File, res *plug.Result) (Table, error) {
 		r := Route{Verb: m[1], Template: m[2]}
 		for _, p := range reTSSrvParam.FindAllStringSubmatch(body, -1) {
 			r.PathVars = append(r.PathVars, p[1])
+		}
+		for _, p := range reTSSrvSeg.FindAllStringSubmatch(body, -1) {
+			if r.SegIndex == nil {
+				r.SegIndex = map[string]int{}
+			}
+			n, _ := strconv.Atoi(p[2])
+			r.SegIndex[p[1]] = n
 		}
 		seen := map[string]bool{}
 		for _, q := range reTSSrvQuery.FindAllStringSubmatch(body, -1) {
